@@ -626,8 +626,17 @@ def run(ctx):
                 out['kicks'] += st['w'].sq.kicks
                 st['w'].stop()
                 st['w'] = None
-            st['w'] = make_world(ctx, shard)
-            st['w'].start()
+            for attempt in range(3):
+                st['w'] = make_world(ctx, shard)
+                try:
+                    st['w'].start()
+                    break
+                except HarnessError:
+                    # lockstep.Squid gives an instance 60 s of real time to come up; an overloaded machine may need more
+                    st['w'].stop()
+                    st['w'] = None
+                    if attempt == 2:
+                        raise
 
         def one(case, choices):
             if st['w'] is None:
